@@ -455,6 +455,11 @@ class Ref:
     def e_iter(self, n, o):
         return sem.RefIter(self.items(n, o))
 
+    def e_dclass(self, n, o):
+        vals = self.all_of([(lambda m=m: self.ev(m["node"], o)) for m in n["members"]])
+        self.st.labels.add("dataset-class")
+        return sem.DCValue({m["name"]: sem.freeze(v) for m, v in zip(n["members"], vals)})
+
     def e_dict(self, n, o):
         vals = self.all_of([(lambda v=v: self.ev(v, o)) for _, v in n["items"]])
         out = {}
